@@ -1,5 +1,6 @@
 """C14 -- workspace modes and allocation failure (DESIGN 3/C14)"""
 from props.common import *
+import random
 
 ALLOC_SRCS = [('pdmemory.c', ['-Dstatic=']), 'pmemory.c', ('util.c', ['-Dsuperlu_abort_and_exit=real_superlu_abort_and_exit'])]
 OPS = {1: 'user_malloc', 2: 'user_free', 3: 'WorkInit', 4: 'WorkFree-while-others-live', 5: 'expand-first-allocation', 6: 'WorkFree-last-thread', 7: 'SetupSpace-from-any-state', 8: 'work-arrays-cleared'}
@@ -17,15 +18,24 @@ def plan(tier, seed):
     # halved requests, success) and the system allocator refusing the factor arrays from any request on
     from props.C17 import leakdrv_plan
     qs += [q for q in leakdrv_plan('C14', tier, seed) if '.s2.' in q.name or '.s3.' in q.name]
+    # "results match the internally-allocated mode": the whole simple driver with per-thread work arrays whose old contents are
+    # ARBITRARY (what ?user_malloc hands out of a recycled caller buffer), integer and real: same assertions as C01
+    rnd = random.Random(seed + 14)
+    combos = [(2, pat, pv) for pat in all_patterns(2) for pv in perms(2)] + rnd.sample([(3, pat, pv) for pat in all_patterns(3) for pv in perms(3)], 24 if tier != 'thorough' else 200)
+    for k, (n, pat, pv) in enumerate(combos):
+        q = full_query('C14', n, pat, pv, perms(n)[k % len(perms(n))], CONFIGS[k % len(CONFIGS)], nr=(k % 2 == 1), nprocs=1 + k % 3, nrhs=1 + (k % 4 == 0),
+                       vendor=(k % 5 < 2), dyn=(k % 7 == 3), extra={'VH_IWORK_ARBITRARY': None}, tagx='.iwarb')
+        q.group = 'whole driver n=%d, work arrays with arbitrary old contents' % n
+        qs.append(q)
     return qs
 
 META = {
     'level': 'model_checking',
-    'engines': 'E1: cbmc 6.11 bit-precise (MiniSat / kissat)',
-    'bounds': {'buffer': 'lwork 0..64 bytes (thorough: 256), any base alignment 0..7', 'requests': '0..size+8 bytes', 'WorkInit': 'n 1..3, w 1..2, maxsuper/rowblk 1..2', 'work arrays cleared': 'WorkInit + pxgstrf_SetIWork + pdgstrf_SetRWork on a fresh stack over a buffer of <=136 bytes with ARBITRARY contents, any base alignment, n 1..2, w=1, maxsuper/rowblk 1..2: dense[], tempv[] all zero, repfnz[] all EMPTY (requests whose integer array would be misaligned for int are left out)',
+    'engines': 'E1: cbmc 6.11 bit-precise (MiniSat / kissat); E2 (Real) for the whole-driver queries with arbitrary work-array contents',
+    'bounds': {'buffer': 'lwork 0..64 bytes (thorough: 256), any base alignment 0..7', 'requests': '0..size+8 bytes', 'WorkInit': 'n 1..3, w 1..2, maxsuper/rowblk 1..2', 'whole driver, arbitrary work-array contents': 'real pdgssv as in C01 (n<=3, all n=2 patterns x pivot orders, 24 sampled at n=3; thorough 200), iwork/dwork handed to each worker uninitialised: info=0, Pr A Pc = L U, WF_LU, A X = B', 'work arrays cleared': 'WorkInit + pxgstrf_SetIWork + pdgstrf_SetRWork on a fresh stack over a buffer of <=136 bytes with ARBITRARY contents, any base alignment, n 1..2, w=1, maxsuper/rowblk 1..2: dense[], tempv[] all zero, repfnz[] all EMPTY (requests whose integer array would be misaligned for int are left out)',
                'state': 'arbitrary (top1, top2, used) satisfying the representation invariant, with one live block of another owner at each end',
     'driver': 'real pdgssvx + sp_colorder + pdgstrf_thread_init + ParallelInit + PresetMap + MemInit, n=2,3, 8 patterns, NC/NR, symmetric mode on/off, lwork 1..80n^2 bytes at any alignment (the whole range from nothing fits to everything fits), or the system allocator refusing every MemInit request from the k-th on (k symbolic)'},
-    'outside': ['system-malloc mode of the per-thread work arrays', 'the memory-expansion branch of p?gstrf_expand (documented as not implemented in SuperLU_MT)',
+    'outside': ['system-malloc mode of the per-thread work arrays', 'the whole-driver contents queries use the typed allocator stubs (arrays of exactly the library\'s sizes, uninitialised = arbitrary), not the byte-level stack', 'the memory-expansion branch of p?gstrf_expand (documented as not implemented in SuperLU_MT)',
                 'buffers larger than the bound (the arithmetic is linear in the sizes)'],
     'assumptions': ['pdmemory.c compiled with -Dstatic= so the harness can set the file-scope allocator state (no other change)',
                     'the stack lock is a no-op: each allocator call is one atomic step'],
